@@ -158,6 +158,17 @@ CHECKS = {
         "merged in every order, and the result's set of wire pairs compared with the union of the operands', the unique id and the "
         "equality of all orders; every ordered pair of key sources is merged both ways against the documented rule, under catch_unwind.",
    note="additions disjoint or identical; one representative value per field; positions limited to 2 inputs / 2 outputs."),
+ "C15": dict(
+   cat="model_checking", design="§4 C15",
+   technique="TLA+ transcription of the TaprootBuilder stack machine checked by TLC against a reference tree semantics for every op "
+             "sequence in bounds, plus the Huffman procedure; every sequence replayed step by step on the real builder (stack state "
+             "compared), trees evaluated with own tagged hashes against roots, output keys and control blocks incl. negatives",
+   text="TLC checks that the eager-combination stack machine accepts exactly depth-first listings of binary trees, yields the reference "
+        "tree, gives every leaf a path of its depth in depth-first order, and refuses everything else with the documented error; every "
+        "sequence is replayed on the real builder with the pending-node stack compared after each step, and for valid trees the root, "
+        "tweak, output key, parity and each control block (positive and negative verification, size, serialization) are compared with "
+        "values computed from the specification's terms by independent tagged hashing.",
+   note="tagged hashes as free constructors; bounded sequence length / depth; 128/129 limit by explicit chains."),
 }
 NA_PENDING = "check not built yet in this round (planned, see DESIGN.md §4)"
 
